@@ -88,7 +88,7 @@ def pmcfg(gram, lexicon, dest, dest_enc, **params):
                     gram[func] = {}
                 lin = (((0, 0),),)
                 if lin in gram[func]:
-                    count = gram[func][lin][(grammarconst.DEFAULT_VERT)] \
+                    count = gram[func][lin].get(grammarconst.DEFAULT_VERT, 0) \
                             + count
                 else:
                     gram[func][lin] = {(grammarconst.DEFAULT_VERT) : 0}
@@ -146,7 +146,7 @@ def rcg(gram, lexicon, dest, dest_enc, **params):
                     gram[func] = {}
                 lin = (((0, 0),),)
                 if lin in gram[func]:
-                    count = gram[func][lin][(grammarconst.DEFAULT_VERT)] \
+                    count = gram[func][lin].get(grammarconst.DEFAULT_VERT, 0) \
                             + count
                 else:
                     gram[func][lin] = {(grammarconst.DEFAULT_VERT) : 0}
